@@ -77,9 +77,10 @@ def replay_serializer(rep):
 
 def run(rep):
     common.load_contracts()
-    from contracts.filters import STRIPWS_SHAPE_CASES, MORE_LAYOUT_CASES
+    from contracts.filters import STRIPWS_SHAPE_CASES, MORE_LAYOUT_CASES, SPACING_SHAPE_CASES, CASE_LAYOUT_CASES
     descent = [c for c in MORE_LAYOUT_CASES if c[0].endswith('ReindentFilter._process_identifierlist')]
-    return _run(rep, list(STRIPWS_SHAPE_CASES) + descent)
+    descent += [c for c in CASE_LAYOUT_CASES if c[0].endswith('ReindentFilter._process_case')]
+    return _run(rep, list(STRIPWS_SHAPE_CASES) + list(SPACING_SHAPE_CASES) + descent)
 
 
 def _run(rep, shape_cases):
